@@ -42,6 +42,26 @@ SigFiles(n, defs) == [lib |-> <<MacroDef("m", n, defs, TRUE), T(<<"ignored">>)>>
 RecName(i) == <<"r1", "r2", "r3">>[i]
 RecDef(i, nxt, exported) == [t |-> "macro", name |-> RecName(i), export |-> exported, params |-> <<[name |-> "n", def |-> NoDef]>>,
                              body |-> <<T(<<".">>), Out(Call(RecName(nxt), <<Bin("+", Var(<<"n">>), Lit(I(1)))>>))>>]
+\* where the unconditional call sits: in the body, in the default of a second parameter (the caller never supplies it), as the
+\* argument of a call, in a set/with binding, in a loop
+Placements == {"body", "default", "arg", "set", "loop", "default_only"}
+RecDefAt(i, nxt, exported, place) ==
+  LET call == Call(RecName(nxt), <<Bin("+", Var(<<"n">>), Lit(I(1)))>>) IN
+  CASE place = "body" -> RecDef(i, nxt, exported)
+    [] place = "default" -> [t |-> "macro", name |-> RecName(i), export |-> exported,
+                             params |-> <<[name |-> "n", def |-> NoDef], [name |-> "x", def |-> call]>>, body |-> <<T(<<".">>), Out(Var(<<"x">>))>>]
+    [] place = "default_only" -> [t |-> "macro", name |-> RecName(i), export |-> exported,      \* nothing in the body at all
+                             params |-> <<[name |-> "n", def |-> Lit(I(0))], [name |-> "x", def |-> Call(RecName(nxt), <<>>)]>>, body |-> <<T(<<".">>)>>]
+    [] place = "arg" -> [t |-> "macro", name |-> RecName(i), export |-> exported, params |-> <<[name |-> "n", def |-> NoDef]>>,
+                         body |-> <<T(<<".">>), Out(Call(RecName(nxt), <<call>>))>>]
+    [] place = "set" -> [t |-> "macro", name |-> RecName(i), export |-> exported, params |-> <<[name |-> "n", def |-> NoDef]>>,
+                         body |-> <<[t |-> "set", name |-> "r", e |-> call], T(<<".">>)>>]
+    [] place = "loop" -> [t |-> "macro", name |-> RecName(i), export |-> exported, params |-> <<[name |-> "n", def |-> NoDef]>>,
+                          body |-> <<[t |-> "for", key |-> "i", val |-> "", e |-> Var(<<"l2">>), rev |-> FALSE, sorted |-> FALSE, body |-> <<T(<<".">>), Out(call)>>, empty |-> <<>>]>>]
+RecProgAt(nm, nxt, mode, place) ==
+  IF mode = "local" THEN [i \in 1..nm |-> RecDefAt(i, nxt[i], FALSE, place[i])] \o <<Out(Call("r1", <<Lit(I(0))>>))>>
+  ELSE [i \in 1..nm |-> [t |-> "import", file |-> "lib", name |-> RecName(i), as |-> RecName(i)]] \o <<Out(Call("r1", <<Lit(I(0))>>))>>
+RecFilesAt(nm, nxt, place) == [lib |-> [i \in 1..nm |-> RecDefAt(i, nxt[i], TRUE, place[i])]]
 RecProg(nm, nxt, mode) ==
   IF mode = "local" THEN [i \in 1..nm |-> RecDef(i, nxt[i], FALSE)] \o <<Out(Call("r1", <<Lit(I(0))>>))>>
   ELSE [i \in 1..nm |-> [t |-> "import", file |-> "lib", name |-> RecName(i), as |-> RecName(i)]] \o <<Out(Call("r1", <<Lit(I(0))>>))>>
@@ -72,6 +92,10 @@ Init ==
             \E nm \in 1..3, mode \in {"local", "import"} :
               \E nxt \in [1..nm -> 1..nm] :
                  prog = RecProg(nm, nxt, mode) /\ files = RecFiles(nm, nxt)
+       [] Family = "recplace" ->
+            \E nm \in 1..2, mode \in {"local", "import"} :
+              \E nxt \in [1..nm -> 1..nm], place \in [1..nm -> Placements] :
+                 prog = RecProgAt(nm, nxt, mode, place) /\ files = RecFilesAt(nm, nxt, place)
        [] Family = "kinds" ->
             \E i \in 1..Len(KindProgs) : prog = KindProgs[i] /\ files = <<>>
 Next == go = FALSE /\ go' = TRUE /\ UNCHANGED <<prog, files>>
@@ -79,7 +103,7 @@ Next == go = FALSE /\ go' = TRUE /\ UNCHANGED <<prog, files>>
 Res == RenderF(prog, Ctx, files)
 Balanced == go => (ScopesBalanced(Res) /\ DepthBalanced(Res))
 \* unbounded recursion always ends in an error, never in output
-RecursionBounded == (go /\ Family = "rec") => Res.err # ""
+RecursionBounded == (go /\ Family \in {"rec", "recplace"}) => Res.err # ""
 \* an imported macro behaves like the local one: same output (checked on the model for the signature family)
 ImportEqualsLocal ==
   (go /\ Family = "sig" /\ prog[1].t = "import" /\ prog[1].as = "m") =>
